@@ -311,6 +311,42 @@ def shared_service_scenario(draw, conf):
     return ev
 
 
+def slot_reuse_scenario(draw, conf):
+    """A service answers a pending client for good (OK / MORE / AGAIN); a reload drops that service - nobody waits for it
+    any more, so the daemon lets go of its record - and the same or a later reload configures another service (or the
+    same name again).  The newcomer has neither been told about the client nor challenged it nor said OK: the client's
+    next data event must ask it, and the client's next password is not an answer to a challenge of the newcomer."""
+    named = [s_ for s_ in conf["services"] if s_[1].lower() in proto.PROTOCOLS]
+    S = draw(st.sampled_from(named))
+    cid = draw(st.sampled_from([0, 3, 12, 2000000000]))
+    data = [["N", cid, "host.example.org"], ["u", cid, "ident"], ["n", cid, "Nick"], ["U", cid, "user", "real name"]]
+    ev = [["C", cid, draw(st.sampled_from(IPS)), draw(st.integers(1, 65535))]] + list(draw(st.permutations(data)))
+    ev.append(["P", cid, "%s acct pw" % draw(st.sampled_from(["+x!", "+!", "-x+!"]))])
+    for o in conf["services"]:
+        if o[0] != S[0] and draw(st.booleans()):
+            ev.append(["X", cid, o[0], "OK", "cur"])
+    ev.append(["X", cid, S[0], draw(st.sampled_from(["OK", "MORE say friend", "MORE say friend", "AGAIN once more", "MORE "])), "cur"])
+    free = [x for x in SVC_POOL if x not in [y[0] for y in conf["services"]]]
+    T = [draw(st.sampled_from(free + [S[0]])), draw(st.sampled_from(["login", "login", "combined", "login-ipr", "dronecheck"]))]
+    rest = [list(s_) for s_ in conf["services"] if s_[0] != S[0]]
+    if draw(st.booleans()):
+        ev.append(["reconf", {"services": rest + [T]}])
+    else:
+        ev.append(["reconf", {"services": rest}])
+        if draw(st.booleans()):
+            ev.append(["n", cid, "Nick1"])
+        ev.append(["reconf", {"services": rest + [T]}])
+    tail = [["u", cid, "ident2"], ["n", cid, "Nick2"], ["P", cid, "+x! acct pw2"], ["P", cid, "mellon"], ["d", cid]]
+    ev += [t_ for t_ in draw(st.permutations(tail)) if draw(st.integers(0, 3))]
+    ev.append(["X", cid, T[0], draw(st.sampled_from(["OK acct:1", "OK", "MORE riddle", "NO go away"])), "cur"])
+    ev.append(["P", cid, "+x acct pw3"])
+    ev.append(["X", cid, T[0], "OK acct:2", "cur"])
+    for o in rest:
+        ev.append(["X", cid, o[0], "OK", "cur"])
+    ev += [["H", cid], ["T", cid]]
+    return ev
+
+
 def crowd_events(draw):
     """A crowd: a few hundred clients announced in ascending (or descending) id order and all still pending, then
     traffic for the ones announced first (the request index must still find them, at the first attempt)."""
@@ -379,6 +415,9 @@ def history_s(draw, pid, tier, conf=None, max_clients=None, distinct_ids=False, 
     if pid in ("C02", "C03", "C05", "C06", "C10") and 1 <= len(conf["services"]) <= 5 and any(s_[1] in ("login", "login-ipr", "combined") for s_ in conf["services"]) \
             and "iauth_xquery" in conf["modules"] and draw(st.integers(0, 13)) == 0:
         return {"conf": conf, "events": shared_service_scenario(draw, conf)}
+    if pid in ("C02", "C03", "C05", "C06", "C10") and 1 <= len(conf["services"]) <= 5 and "iauth_xquery" in conf["modules"] \
+            and any(s_[1].lower() in proto.PROTOCOLS for s_ in conf["services"]) and draw(st.integers(0, 15)) == 0:
+        return {"conf": conf, "events": slot_reuse_scenario(draw, conf)}
     if pid in ("C03", "C06", "C01") and draw(st.integers(0, 59)) == 0:
         return {"conf": conf, "events": crowd_events(draw)}
     if pid in ("C02", "C03", "C06") and 1 <= len(conf["services"]) <= 4 and "iauth_xquery" in conf["modules"] and draw(st.integers(0, 15)) == 0:
